@@ -1,7 +1,9 @@
 //! PF8 / C01: `slow::parse_mantissa` (the digit -> big-integer step of the slow path) truncates to `max_digits` significant
 //! digits and records every dropped non-zero digit as a sticky "+1 after one more digit", so that a truncated value can
 //! never look like an exact halfway point. Exercised with a small `max_digits` (it is a parameter of the real function).
-//! OUT OF REACH in practice: the 62-limb `StackVec` with symbolic length drives CBMC beyond 35 GB even for 5 input digits, so
+//! With symbolic slice lengths the 62-limb `StackVec` drives CBMC beyond 35 GB even for 5 input digits, so that harness is `deep` only;
+//! the variant with concrete lengths (3 integer digits, 1 fraction digit) takes 225 s / 5.4 GB and is in the quick tier.
+//! (kept wording of the original note:) OUT OF REACH in practice for symbolic lengths, so
 //! the harness is in the unregistered `deep` tier only; the reference is validated natively by `examples/sweep_mantissa.rs`.
 use crate::vk::{any, assume, cover};
 use crate::vcheck;
